@@ -209,7 +209,11 @@ Definition root_finish (g : game) (st : sstate) (depth : nat) (res : outcome rst
   | Done r =>
       let ne := mkEntry (r_bscore r) (r_best r) (Z.of_nat depth) Exact in
       let st' := r_st r in
-      (Done (r_best r, r_bscore r, false), with_tbl st' (store_root (s_tbl st') (g_hash g) ne))
+      (Done (r_best r, r_bscore r, false),
+       match r_best r with
+       | Some _ => with_tbl st' (store_root (s_tbl st') (g_hash g) ne)
+       | None => st'
+       end)
   | Aborted sa => (Aborted sa, sa)
   | OutOfFuel => (OutOfFuel, st)
   end.
@@ -531,7 +535,8 @@ Section Generic.
                     (mkR None (SCORE_MIN + 1) (root_clear st)) HA Hg (root_sorted_incl _ _) HP0 I) as HL.
       destruct (root_loop _ _ _ _ _) as [r|sa|]; cbn [rloop_post] in HL; cbn [root_finish root_post].
       + destruct HL as [HP' Hb']. split; [|left; exact Hb'].
-        apply P_store_root; assumption.
+        destruct (r_best r) as [bm|] eqn:Ebm; [|exact HP'].
+        rewrite <- Ebm. apply P_store_root; try assumption. rewrite Ebm. exact Hb'.
       + split; [reflexivity|exact HL].
       + exact HP0.
   Qed.
